@@ -356,8 +356,22 @@ pub fn build_packet(m: &Msg, r: &mut Rng) -> (Packet, String) {
             }
             Op::Add(i) => {
                 let (n, v) = &m.options[*i];
-                p.add_option(CoapOption::from(*n), v.clone());
-                desc.push_str(&format!("add{},", n));
+                match r.below(8) {
+                    0 => {
+                        use coap_message_0_3::MinimalWritableMessage;
+                        <Packet as MinimalWritableMessage>::add_option(&mut p, CoapOption::from(*n), v).expect("infallible");
+                        desc.push_str(&format!("add{}(cm0.3),", n));
+                    }
+                    1 => {
+                        use coap_message::MinimalWritableMessage;
+                        <Packet as MinimalWritableMessage>::add_option(&mut p, CoapOption::from(*n), v);
+                        desc.push_str(&format!("add{}(cm0.2),", n));
+                    }
+                    _ => {
+                        p.add_option(CoapOption::from(*n), v.clone());
+                        desc.push_str(&format!("add{},", n));
+                    }
+                }
             }
             Op::Set(n) => {
                 let list: LinkedList<Vec<u8>> = m.options.iter().filter(|o| o.0 == *n).map(|o| o.1.clone()).collect();
@@ -955,6 +969,36 @@ fn fam_directed<F: FnMut(&'static str, &[u8])>(c: &CorpusCfg, f: &mut F) {
     v.push(vec![0x41, 0x00, 0, 0, 0x09]);
     for b in v {
         f("directed", &b);
+    }
+    // very many tiny options (more than any size constant of the crate), with various tails
+    let counts: &[usize] = if c.level == 0 { &[1281] } else { &[1279, 1280, 1281, 1282, 2000, 4096, 63999, 64000, 64001, 65535] };
+    for &n in counts {
+        for (hdr, first) in [(0x00u8, 0x00u8), (0x10, 0x10), (0x01, 0xd1)] {
+            // n options: delta 0 / delta 1 (numbers 1..n) / one-byte values
+            let mut b: Vec<u8> = vec![0x40, 0x01, 0x00, 0x09];
+            for i in 0..n {
+                b.push(if i == 0 { first } else { hdr });
+                if i == 0 && first == 0xd1 {
+                    b.push(0x00);
+                }
+                if hdr & 0x0f == 1 {
+                    b.push((i & 0xff) as u8);
+                }
+            }
+            f("many-options", &b);
+            let l = b.len();
+            b.extend_from_slice(&[0xff, 0x70, 0x71]);
+            f("many-options", &b);
+            b.truncate(l);
+            b.push(0xf1); // reserved delta nibble after all of them
+            f("many-options", &b);
+            b.truncate(l);
+            b.extend_from_slice(&[0x0d]); // truncated length extension
+            f("many-options", &b);
+            b.truncate(l);
+            b.extend_from_slice(&[0xe0, 0xff, 0xff]); // pushes the number past 65535
+            f("many-options", &b);
+        }
     }
 }
 
